@@ -107,6 +107,32 @@ def rule_r2(prog, res) -> None:
                 )
     if n < 3:
         raise AnalysisError(f"C15.R2: only {n} calls from Configuration into BinningConfig found, minimum 3")
+    # modify(): the binning handed to the new configuration is recomputed (with the cosmology) on every path
+    md = conf.methods["modify"]
+    cfgm, INm = reaching_defs(md.node)
+    ctor = [c for c in calls_in(md) if isinstance(c.func, ast.Call) and isinstance(c.func.func, ast.Name) and c.func.func.id == "type" or (isinstance(c.func, ast.Name) and c.func.id in ("cls", "Configuration"))]
+    for c in ctor:
+        b = kwarg(c, "binning")
+        if not isinstance(b, ast.Name):
+            continue
+        for nd in cfgm.node_containing(c):
+            for d in INm.get(nd.id, {}).get(b.id, set()):
+                if d == -1:
+                    continue
+                v = getattr(cfgm.nodes[d].ast, "value", None)
+                is_mod = isinstance(v, ast.Call) and isinstance(v.func, ast.Attribute) and v.func.attr in ("modify", "create", "from_dict") and kwarg(v, "cosmology") is not None
+                if not is_mod:
+                    res.violation(
+                        "C15.R2",
+                        md,
+                        cfgm.nodes[d].ast,
+                        f"on some path Configuration.modify builds the new configuration from `{norm_stmt(cfgm.nodes[d].ast)[:60]}` without recomputing the binning with the (possibly new) cosmology: "
+                        "modify(cosmology=…) of a comoving binning keeps bin edges of the old cosmology and differs from create(...)",
+                        key_extra="modify-binning-not-recomputed",
+                    )
+                    break
+            else:
+                res.ok("C15.R2", res.site(md, "binning="), "every definition of the binning reaching the constructor is a binning.modify(..., cosmology=…) call")
     # BinningConfig passes the cosmology on to the factory
     for name in ("create", "from_dict", "modify"):
         m = binc.methods[name]
